@@ -59,6 +59,8 @@ class Scripted(System):
                 w.add(tuple(obj), prio, tuple(win), script)
             elif kind == "complete":
                 w.complete()
+                if getattr(w, "shadow", None) is not None:
+                    w.shadow.complete()        # the same system then ends the other model of the program as well
             elif kind == "w":          # an operation on the population / the spatial world, performed in the middle of the timestep
                 getattr(w.world, "op_" + act[1])(*act[2:])
 
